@@ -99,7 +99,11 @@ def case(rep, drv, rnd, i, tier):
                 how = rnd.choice(['close', 'drop'])
                 extra.append(('query', name, ('stop', k), args, how))
                 if k >= 1 and rnd.random() < 0.5:
-                    extra.append(('query', name, ('raise', k), args))
+                    if rnd.random() < 0.4:
+                        extra.append(('query', name, ('raise', k), args, 'throw'))
+                        rep.count('exception-thrown-into-the-generator')
+                    else:
+                        extra.append(('query', name, ('raise', k), args))
                     rep.count('consumer-raises')
                 rep.count('abandon-points')
             if na >= 1 and rnd.random() < 0.6:
@@ -108,6 +112,16 @@ def case(rep, drv, rnd, i, tier):
                 rep.count('evaluate_bounded-projection-raises')
             # and the same query again: the answers must be the same as the first time
             extra.append(('query', name, ('all',), args))
+        # a registered Python predicate that delegates to the engine's unification with `yield from`
+        prows = [(0, [[Sym('a'), 'a']]), (1, [[Sym('f'), 'f', [Sym('v'), 0]]]), (0, [[Sym('a'), 'b']])][:rnd.randint(1, 3)]
+        extra.append(('regpy', 'pydel', 1, prows, None, 'explicit', 'delegate'))
+        for k in range(0, len(prows) + 1):
+            extra.append(('query', 'pydel', rnd.choice([('raise', max(k, 1)), ('stop', k)]), [[Sym('v'), 0]], rnd.choice(['throw', 'close', 'drop'])))
+        extra.append(('query', 'pydel', ('all',), [[Sym('v'), 0]]))
+        # a builtin queried directly: `query` delegates straight to the generator of the unification
+        t = rnd.choice([[Sym('a'), 'a'], [Sym('f'), 'f', [Sym('v'), 1], [Sym('a'), 'b']], [Sym('v'), 1]])
+        extra.append(('query', '=', rnd.choice([('raise', 1), ('stop', 1), ('all',)]), [[Sym('v'), 0], t], rnd.choice(['throw', 'close', 'drop'])))
+        extra.append(('query', '=', ('all',), [[Sym('v'), 0], [Sym('a'), 'again']]))
         ops = ops + extra
     v = scen.three_way(rep, drv, ops, 'case %d' % i)
     rep.count('programs')
